@@ -268,7 +268,7 @@ def shard_task(sh, part):
     for B in (40, 60, 120, 240) if sh.tier == 'quick' else (20, 30, 40, 60, 80, 120, 240):
         for task in ('ranking', 'identify_rare_values'):
             cr = pipe.fresh_core_ranking()
-            tr.Pool = lambda n_: pipe.SyncPool()
+            tr.Pool = lambda *a_, **k_: pipe.SyncPool()
             tr.estimate_importances_minibatches = cr.estimate_importances_minibatches
             out_dir = os.path.join(sh.scratch, 'out-%s-%d' % (task, B))
             args = pipe.make_args(task=task, data_path=dpath, output_folder=out_dir, minibatch_size=B, heuristic='max-value-coverage', target_ranking_only='True',
